@@ -107,7 +107,8 @@ def classify(form, problems):
     text = " ".join(problems)
     cells = [v for rows in form.values() for r in rows if isinstance(r, dict) for v in r.values() if isinstance(v, str)]
     cols = [k for rows in form.values() for r in rows if isinstance(r, dict) for k in r]
-    if any(XML_CHAR_BAD.search(c) for c in cells) and ("not well-formed" in text) and ("PCDATA invalid Char" in text or "invalid Char" in text or "Char 0x" in text or "not allowed" in text):
+    if any(XML_CHAR_BAD.search(c) for c in cells) and ("not well-formed" in text) and ("PCDATA invalid Char" in text or "invalid Char" in text or "Char 0x" in text or "not allowed" in text
+                                                                                       or "invalid character in attribute value" in text):
         return "F3-control-char"
     custom = [c.split("::", 1)[1].strip() for c in cols if "::" in c and c.split("::")[0].strip().lower() in ("bind", "instance", "body", "control", "attribute")]
     # extra choices columns become element names of the secondary instance items, equally unvalidated
